@@ -8,9 +8,38 @@ import (
 	"fmt"
 	"strings"
 
+	ipfslog "berty.tech/go-ipfs-log"
+	logiface "berty.tech/go-ipfs-log/iface"
 	"berty.tech/go-orbit-db/iface"
 	"berty.tech/go-orbit-db/stores/basestore"
 )
+
+// racingStore / racingLog: a view of a store whose log grows while it is being looked at — before each
+// of the first `left` looks at the log (heads, length, entries, values) one more write lands, as it
+// would from a concurrent writer.
+type racingStore struct {
+	iface.Store
+	log *racingLog
+}
+
+func (r *racingStore) OpLog() ipfslog.Log { return r.log }
+
+type racingLog struct {
+	ipfslog.Log
+	left  int
+	write func()
+}
+
+func (l *racingLog) tick() {
+	if l.left > 0 {
+		l.left--
+		l.write()
+	}
+}
+func (l *racingLog) Heads() logiface.IPFSLogOrderedEntries      { l.tick(); return l.Log.Heads() }
+func (l *racingLog) Len() int                                { l.tick(); return l.Log.Len() }
+func (l *racingLog) GetEntries() logiface.IPFSLogOrderedEntries { l.tick(); return l.Log.GetEntries() }
+func (l *racingLog) Values() logiface.IPFSLogOrderedEntries     { l.tick(); return l.Log.Values() }
 
 func guarded(f func() error) (res string) {
 	defer func() {
@@ -46,6 +75,29 @@ func (w *World) execSnapOp(ctx context.Context, toks []string) (bool, error) {
 		p := atoi(toks[1])
 		res := guarded(func() error { _, err := basestore.SaveSnapshot(ctx, w.stores[p]); return err })
 		w.printf("snapsaved %d %s\n", p, res)
+	case "snapsaverace":
+		// snapsaverace p n : SaveSnapshot while up to n writes by p land, one before each look at the log
+		p := atoi(toks[1])
+		n := atoi(toks[2])
+		k := 0
+		rl := &racingLog{Log: w.stores[p].OpLog(), left: n}
+		rl.write = func() {
+			k++
+			w.beforeWrite(p)
+			switch s := w.stores[p].(type) {
+			case iface.EventLogStore:
+				op, err := s.Add(ctx, []byte(fmt.Sprintf("race%d", k)))
+				w.ack(p, op, err)
+			case iface.KeyValueStore:
+				op, err := s.Put(ctx, "r", []byte(fmt.Sprintf("race%d", k)))
+				w.ack(p, op, err)
+			}
+		}
+		res := guarded(func() error {
+			_, err := basestore.SaveSnapshot(ctx, &racingStore{Store: w.stores[p], log: rl})
+			return err
+		})
+		w.printf("snapsaved %d %s race=%d\n", p, res, k)
 	case "restartsnap":
 		// a fresh instance on the same keystore and cache, reopening the database and loading the snapshot
 		p := atoi(toks[1])
